@@ -9,6 +9,7 @@ constructor over an arbitrary linearly ordered field (rounding inside `np.linspa
 the correspondence check, not modelled).
 -/
 import Pyiga.Proofs.BSpline
+import Pyiga.Props.C02
 
 namespace Pyiga.Props.C19
 open Pyiga.Knots Pyiga.BSpline
@@ -287,6 +288,65 @@ theorem make_knots_rounded (p : ℕ) (a b : K) (interior : List K) (n mult : ℕ
 example : makeKnots 2 (0 : ℚ) 1 4 1 = [0, 0, 0, 1/4, 1/2, 3/4, 1, 1, 1]
     ∧ numspans (makeKnots 2 (0 : ℚ) 1 4 1) = 4 ∧ mults (makeKnots 1 (0 : ℚ) 3 3 2) = [2, 2, 2, 2] := by
   decide +kernel
+
+/-! ## the constructor's output satisfies the hypotheses of the basis theorems (C02) -/
+
+/-- every `make_knots(p, a, b, n, mult)` with `a < b`, `n ≥ 1` is an admissible knot vector for the
+B-spline theorems: at least `2p+2` knots, non-decreasing, `kv[p] = a`, `kv[N-p-1] = b`, last span
+non-empty. -/
+theorem make_knots_admissible (p : ℕ) (a b : K) (n mult : ℕ) (hab : a < b) (hn : 1 ≤ n) :
+    2 * p + 2 ≤ (makeKnots p a b n mult).length ∧
+    (∀ i j, i ≤ j → j < (makeKnots p a b n mult).length →
+        getK (makeKnots p a b n mult) i ≤ getK (makeKnots p a b n mult) j) ∧
+    getK (makeKnots p a b n mult) p = a ∧
+    getK (makeKnots p a b n mult) ((makeKnots p a b n mult).length - p - 1) = b ∧
+    getK (makeKnots p a b n mult) ((makeKnots p a b n mult).length - p - 2)
+      < getK (makeKnots p a b n mult) ((makeKnots p a b n mult).length - p - 1) := by
+  have hlen := make_knots_length p a b n mult
+  have hfront : ∀ x ∈ List.replicate (p + 1) a ++ repeatEach (linspaceInterior a b n) mult, x < b := by
+    intro x hx
+    have hinc := breakpoints_increasing a b n hab hn
+    have h2 : ∀ y ∈ a :: linspaceInterior a b n, y < b := by
+      have h3 : ((a :: linspaceInterior a b n) ++ [b]).Pairwise (· < ·) := by simpa using hinc
+      intro y hy
+      exact (List.pairwise_append.mp h3).2.2 y hy b (by simp)
+    rcases List.mem_append.mp hx with h | h
+    · rw [(List.mem_replicate.mp h).2]; exact h2 a (by simp)
+    · unfold repeatEach at h
+      obtain ⟨y, hy, hxy⟩ := List.mem_flatMap.mp h
+      rw [(List.mem_replicate.mp hxy).2]; exact h2 y (by simp [hy])
+  have hsplit : makeKnots p a b n mult
+      = (List.replicate (p + 1) a ++ repeatEach (linspaceInterior a b n) mult) ++ List.replicate (p + 1) b := by
+    simp [makeKnots]
+  set front := List.replicate (p + 1) a ++ repeatEach (linspaceInterior a b n) mult with hfdef
+  have hfl : front.length = (makeKnots p a b n mult).length - (p + 1) := by
+    rw [hsplit]; simp
+  have hfpos : p + 1 ≤ front.length := by rw [hfdef]; simp
+  have hb : getK (makeKnots p a b n mult) ((makeKnots p a b n mult).length - p - 1) = b := by
+    have e : (makeKnots p a b n mult).length - p - 1 = front.length := by omega
+    rw [e, hsplit]
+    simp [getK, List.getD_eq_getElem?_getD, List.getElem?_append_right]
+  refine ⟨by rw [hlen]; omega, getK_mono _ (make_knots_sorted p a b n mult hab hn), ?_, hb, ?_⟩
+  · unfold makeKnots
+    simp [getK, List.getD_eq_getElem?_getD, List.getElem?_append_left, List.getElem?_replicate]
+  · rw [hb]
+    have e : (makeKnots p a b n mult).length - p - 2 = front.length - 1 := by omega
+    have hlt : front.length - 1 < front.length := by omega
+    have hget : getK (makeKnots p a b n mult) (front.length - 1) = front[front.length - 1] := by
+      rw [hsplit]
+      simp [getK, List.getD_eq_getElem?_getD, List.getElem?_append_left hlt, List.getElem?_eq_getElem hlt]
+    rw [e, hget]
+    exact hfront _ (List.getElem_mem hlt)
+
+/-- **constructor + evaluation, end to end**: for every knot vector built by `make_knots` and every
+`u ∈ [a, b]`, the values returned by the modelled `active_ev` are non-negative and sum to one. -/
+theorem make_knots_partition_of_unity (p : ℕ) (a b : K) (n mult : ℕ) (hab : a < b) (hn : 1 ≤ n)
+    (u : K) (hua : a ≤ u) (hub : u ≤ b) :
+    (∀ x ∈ activeEv (getK (makeKnots p a b n mult)) (makeKnots p a b n mult).length p u, 0 ≤ x) ∧
+    (activeEv (getK (makeKnots p a b n mult)) (makeKnots p a b n mult).length p u).sum = 1 := by
+  obtain ⟨h1, h2, h3, h4, h5⟩ := make_knots_admissible p a b n mult hab hn
+  exact ⟨Pyiga.Props.C02.active_values_nonneg _ _ p u h1 h2 (by rw [h3]; exact hua) (by rw [h4]; exact hub) h5,
+    Pyiga.Props.C02.active_values_sum_one _ _ p u h1 h2 (by rw [h3]; exact hua) (by rw [h4]; exact hub) h5⟩
 
 /-! ## Greville abscissae -/
 
